@@ -130,6 +130,15 @@ Theorem c19_from_creates d ls names auto off :
   wf_decl d ls -> Permutation names (keys_of ls) -> layout_inj ls off ->
   resolve_leaves names (tree_leaves (su_tree (setup_with d ls names auto off))) = Some (all_leaves names ls).
 Proof. intros W P I. exact (leaves_all d ls names auto off W P). Qed.
+(* the function that is evaluated against every compiled round (model_c19) is covered: whenever
+   it yields children, they are the store of a run for which the delivery statement holds *)
+Theorem c19_model_run c ls ops children answers :
+  resolve (c_decl c) = Some ls -> Permutation (c_names c) (keys_of ls) ->
+  c_ops c = (if is_local_metric (dc_type (c_decl c)) then ops ++ [OFlush []] else ops) ->
+  model_c19 c = Some (children, answers) ->
+  exists st, children = map (fun kvp => (combine (c_names c) (fst kvp), snd kvp)) (rt_store st)
+    /\ forall ch, kv_get ch (rt_store st) = delivered (has_try (dc_form (c_decl c))) ls (c_names c) ch ops.
+Proof. exact (model_c19_delivers c ls ops children answers). Qed.
 (* the boolean well-formedness test run on every generated declaration is sound *)
 Theorem c19_wf_sound d : wf_declb d = true -> exists ls, wf_decl d ls.
 Proof. exact (wf_declb_sound d). Qed.
@@ -232,7 +241,9 @@ Print Assumptions c19_direct_delivers.
 Print Assumptions c19_conservation.
 Print Assumptions c19_run_total.
 Print Assumptions c19_from_creates.
+Print Assumptions c19_model_run.
 Print Assumptions c19_wf_sound.
+Print Assumptions c19_example_wf.
 Print Assumptions c19_example_static.
 Print Assumptions c19_example_auto.
 Print Assumptions c19_example_hyps.
